@@ -423,7 +423,9 @@ def judge(ctx, prob, x, which, tag, fd=True, hand=True):
                 if np.abs(Jd - Jdf).max() <= RT_FD * np.abs(Jdf).max() + at:
                     return "jax-det-3x3-doubled-minus"
             return "jac-fd:" + names
-        ctx.close("jacobian-vs-finite-differences", Jd, Jf, rtol=RT_FD, scale=sJ, atol=fd_atol, mech=fd_mech,
+        # tolerance RT_FD * max|J_fd| + rounding floor, written as one scale so that the recorded relative error is
+        # meaningful where J vanishes
+        ctx.close("jacobian-vs-finite-differences", Jd, Jf, rtol=RT_FD, scale=sJ + fd_atol / RT_FD, mech=fd_mech,
                   terms=names, point=which, worst=lambda: worst_entry(Jd, Jf), **tag)
         if Jh is not None:
             # the two references must agree with each other, otherwise the harness is wrong, not the library
